@@ -195,6 +195,32 @@ func c08GenSpellings(e *c08Env) {
 		`9223372036854775807`, `-9223372036854775808`, `"9223372036854775807"`, `"9223372036854775808"`, `1e15`, `123456789012345.5`,
 		`"\t50\n"`, `"0x32"`, `"5_0"`, `0`, `"0"`, `100`, `"100"`, `51`, `"51"`, `50.9`, `"٥٠"`, `1.0e2`, `100e0`}
 	places := []string{"ban", "users_default", "users:@bob:hs2", "users:@alice:hs1", "events:x.custom", "notifications:room", "state_default"}
+	// every version, always: a string, a padded string, a fraction and an exponent at a named key,
+	// a users entry, an events entry and a notifications entry of the new content (a version whose
+	// table entry is wired to the other parser then yields a concrete disagreement)
+	for _, ver := range c07Versions {
+		for _, sp := range []string{`"50"`, `" 50 "`, `50.5`, `5e1`, `50.0`, `"abc"`, `50`} {
+			for _, place := range []string{"ban", "users:@bob:hs2", "events:x.custom", "notifications:room"} {
+				b := J{"events": J{"m.room.power_levels": 0}, "users": J{"@alice:hs1": 50}}
+				o := cloneJ(b)
+				raw := json.RawMessage(sp)
+				var a, k string
+				if n, _ := fmt.Sscanf(place, "users:%s", &k); n == 1 {
+					a = "users"
+				} else if n, _ := fmt.Sscanf(place, "events:%s", &k); n == 1 {
+					a = "events"
+				} else if n, _ := fmt.Sscanf(place, "notifications:%s", &k); n == 1 {
+					a = "notifications"
+				}
+				if a != "" {
+					sub(b, a)[k] = raw
+				} else {
+					b[place] = raw
+				}
+				e.run(ver, "@alice:hs1", o, b, nil, "join", "pl/spelling/every-version", fmt.Sprintf("%s at %s", sp, place))
+			}
+		}
+	}
 	for _, ver := range c07Versions {
 		for _, sp := range spell {
 			for _, place := range places {
